@@ -56,11 +56,13 @@ type ConnInst struct {
 	// == Dests when no route is configured for To; the route's pipelines (a repeated id delivers
 	// twice: the router builds a fan-out over the listed consumers) when the route is well-formed;
 	// empty when the router must refuse the route (RouteErr).
-	Deliver  []int
-	Routing  bool     // a route is configured for signal To
-	Route    []string // the route as written
-	RouteErr bool     // the route is empty or names a pipeline the instance is not connected to
-	Mode     string
+	Deliver     []int
+	Routing     bool       // a route (or a route sequence) is configured for signal To
+	RouteSeq    [][]string // route_sequence for signal To: the payload goes to each route in turn (["*"] = all)
+	Route       []string   // the route as written
+	RouteErr    bool       // the route is empty or names a pipeline the instance is not connected to
+	SeqRefusals int        // route_sequence: number of entries the router must refuse
+	Mode        string
 }
 
 // Key is the instance key.
@@ -128,7 +130,33 @@ func (t *Topology) ConnInstances() []ConnInst {
 					ci.Mode = "convert"
 				}
 				ci.Deliver = ci.Dests
-				if route, ok := cfgRoutes(cfg)[string(to)]; ok {
+				if seq := cfgRouteSeq(cfg)[string(to)]; len(seq) > 0 {
+					// the same payload is sent to every route in turn; a bad entry is refused, the others still deliver
+					ci.Routing, ci.RouteSeq, ci.Deliver = true, seq, nil
+					for _, route := range seq {
+						if len(route) == 1 && route[0] == "*" {
+							ci.Deliver = append(ci.Deliver, ci.Dests...)
+							continue
+						}
+						var d []int
+						bad := len(route) == 0
+						for _, r := range route {
+							found := false
+							for _, i := range ci.Dests {
+								if t.Pipelines[i].ID() == r {
+									d = append(d, i)
+									found = true
+								}
+							}
+							bad = bad || !found
+						}
+						if bad {
+							ci.SeqRefusals++
+						} else {
+							ci.Deliver = append(ci.Deliver, d...)
+						}
+					}
+				} else if route, ok := cfgRoutes(cfg)[string(to)]; ok {
 					ci.Routing, ci.Route, ci.Deliver = true, route, nil
 					ci.RouteErr = len(route) == 0
 					for _, r := range route {
@@ -433,6 +461,12 @@ func (t *Topology) Expect() *Expectation {
 				} else {
 					st.Entry = ConnTrailEntry(id, ci.From, ci.To)
 					tr = append(append([]string(nil), trail...), st.Entry)
+				}
+				if ci.SeqRefusals > 0 {
+					ex.RouteErrors[DeliveryID(ci.Key(), tag, tr)] += ci.SeqRefusals
+					if !contains(ex.RouteRefusals[tag], ci.Key()) {
+						ex.RouteRefusals[tag] = append(ex.RouteRefusals[tag], ci.Key())
+					}
 				}
 				if ci.RouteErr {
 					ex.RouteErrors[DeliveryID(ci.Key(), tag, tr)]++
